@@ -75,9 +75,15 @@ def leg_structure_mismatch(r1, r2):
     return None
 
 
-def same(ctx, what, base, other, leafref, wit, prefused=False):
+def same(ctx, what, base, other, leafref, wit, prefused=False, exact_tables=False):
     """Compare a route result with the base result; report at most one violation."""
     ctx.evaluated()
+    if exact_tables and base.x.ndim == other.x.ndim:
+        t1 = [dict(ix.chargemap) for ix in base.x.indices]
+        t2 = [dict(ix.chargemap) for ix in other.x.indices]
+        if t1 != t2:
+            ctx.violation("strategies-differ-in-index-tables", f"{what}: index charge tables differ: {t2} vs {t1}", wit)
+            return False
     if base.x.ndim != other.x.ndim:
         mech = "route-rank"
         if prefused:
@@ -149,7 +155,7 @@ def case(ctx, rng):
         for mode in ("fused", "auto", None):
             r = named.contract(ctx, na, nb, mode=mode, shared_order=shared)
             ctx.count("route", "mode")
-            if same(ctx, f"mode={mode} vs blockwise", base, r, leafref, wit) and nz and misaligned:
+            if same(ctx, f"mode={mode} vs blockwise", base, r, leafref, wit, exact_tables=True) and nz and misaligned:
                 ctx.nontrivial(("mode", mode, sig))
         # --- pre-fuse the contracted legs
         if len(axa) >= 1:
@@ -167,7 +173,7 @@ def case(ctx, rng):
                     for mode in ("blockwise", "fused"):
                         r = named.contract(ctx, af, bf, mode=mode)
                         ctx.count("route", "prefuse-contracted")
-                        if same(ctx, f"align+fuse contracted legs {order} ({strat}) then {mode}", base, r, leafref, wit) and nz and (misaligned or len(axa) > 1):
+                        if same(ctx, f"align+fuse contracted legs {order} ({strat}) then {mode}", base, r, leafref, wit, exact_tables=True) and nz and (misaligned or len(axa) > 1):
                             ctx.nontrivial(("prefuse", strat, mode, sig, tuple(order)))
                             ctx.sample({"route": "align+fuse-contracted", "strategy": strat, "mode": mode, "a": describe(a), "b": describe(b), "axes": [list(axa), list(axb)]}, limit=2)
             else:
